@@ -90,6 +90,10 @@ def prepare_hybrid(plant, case, n):
 
 def routes(case):
     t, P = np.array(case["t"]), np.array(case["P"])
+    # every third case asks every route with the FuelEU factor set (seeded change C16-r6: one route forgot the argument)
+    from feems.fuel import FuelSpecifiedBy
+    kw = {"fuel_specified_by": FuelSpecifiedBy.FUEL_EU_MARITIME} if case.get("idx", 1) % 3 == 0 and case.get("fuel_eu_ok", True) else {}
+    core.axis("factor_set", "FuelEU" if kw else "default")
     n = len(t)
     aux_scalar, aux_series = case["aux"], case["aux_series"]
 
@@ -97,11 +101,11 @@ def routes(case):
         msg = proto_gymir.GymirResult(name="g", auxiliary_load_kw=aux_scalar,
                                       result=[proto_gymir.SimulationInstance(epoch_s=float(a), power_kw=float(b)) for a, b in zip(t, P)])
         msg = proto_gymir.GymirResult.FromString(msg.SerializeToString())
-        return mc.calculate_machinery_system_output_from_gymir_result(gymir_result=msg)
+        return mc.calculate_machinery_system_output_from_gymir_result(gymir_result=msg, **kw)
 
     def series(mc):
         a = aux_scalar if aux_series is None else np.array(aux_series)
-        return mc.calculate_machinery_system_output_from_propulsion_power_time_series(propulsion_power=pd.Series(index=t, data=P), auxiliary_power_kw=a)
+        return mc.calculate_machinery_system_output_from_propulsion_power_time_series(propulsion_power=pd.Series(index=t, data=P), auxiliary_power_kw=a, **kw)
 
     def proto(mc):
         per = [0.0] * n if aux_series is None else aux_series
@@ -116,11 +120,11 @@ def routes(case):
         elif case["op_profile"] == "other":
             msg.operation_profile.extend([proto_gymir.OperationProfilePoint(epoch_s=float(a), speed_kn=10.0, draft_m=5.0) for a in (t[0], t[-1])])
         msg = proto_gymir.TimeSeriesResult.FromString(msg.SerializeToString())
-        return mc.calculate_machinery_system_output_from_time_series_result(time_series=msg)
+        return mc.calculate_machinery_system_output_from_time_series_result(time_series=msg, **kw)
 
     def stats(mc):
         a = aux_scalar if aux_series is None else np.array(aux_series[:-1])
-        return mc.calculate_machinery_system_output_from_statistics(propulsion_power=P[:-1], frequency=np.diff(t), auxiliary_power_kw=a)
+        return mc.calculate_machinery_system_output_from_statistics(propulsion_power=P[:-1], frequency=np.diff(t), auxiliary_power_kw=a, **kw)
 
     out = {"series": series, "proto": proto, "statistics": stats}
     if aux_series is None:
